@@ -543,7 +543,29 @@ func propC12(c *Ctx) {
 		if outer, ok := varargValues(sl); ok && len(outer) == 1 {
 			if isl, ok := outer[0].(*ssa.Slice); ok {
 				if inner, ok := varargValues(isl); ok && len(inner) == 1 {
-					if call, ok := inner[0].(*ssa.Call); ok && strings.HasSuffix(calleeName(call), "/eth.EncodeHex") && (fieldIsOrLoad(call.Call.Args[0], fSig) || isFieldValueOrSlice(call.Call.Args[0], fSig)) {
+					var hexOfSig func(v ssa.Value, d int) bool
+					hexOfSig = func(v ssa.Value, d int) bool {
+						call, ok := v.(*ssa.Call)
+						if !ok || d > 2 {
+							return false
+						}
+						if strings.HasSuffix(calleeName(call), "/eth.EncodeHex") {
+							return fieldIsOrLoad(call.Call.Args[0], fSig) || isFieldValueOrSlice(call.Call.Args[0], fSig)
+						}
+						// an accessor of the value that holds the hash (ig.match.topic0())
+						h := staticCallee(call)
+						if h == nil || h.Blocks == nil || !isRepoFunc(h) {
+							return false
+						}
+						rets := returnsOf(h)
+						for _, r := range rets {
+							if !hexOfSig(returnValues(r)[0], d+1) {
+								return false
+							}
+						}
+						return len(rets) > 0
+					}
+					if hexOfSig(inner[0], 0) {
 						okTopics = true
 					}
 				}
@@ -1245,7 +1267,19 @@ func checkFilterTypesHandled(c *Ctx, rule string) {
 	// judged / normalised types of Accept
 	var adds []ssa.Instruction
 	for _, ci := range callsIn(accept) {
-		if cal := staticCallee(ci); cal != nil && cal.Name() == "add" && cal.Signature.Recv() != nil && repoNamedIs(cal.Signature.Recv().Type(), "dig", "filterResults") {
+		cal := staticCallee(ci)
+		if cal == nil || cal.Signature.Recv() == nil || !repoNamedIs(cal.Signature.Recv().Type(), "dig", "filterResults") {
+			continue
+		}
+		isAdd := cal.Name() == "add"
+		if !isAdd && cal.Blocks != nil { // a method of the fold that adds a verdict itself (addOrdered(op, cmp))
+			for _, c2 := range callsIn(cal) {
+				if g := staticCallee(c2); g != nil && g.Name() == "add" && g.Signature.Recv() != nil && repoNamedIs(g.Signature.Recv().Type(), "dig", "filterResults") {
+					isAdd = true
+				}
+			}
+		}
+		if isAdd {
 			adds = append(adds, ci)
 		}
 	}
